@@ -199,26 +199,65 @@ def matrix_cases(rng, n_random):
     return out
 
 
+def r_(x):
+    return ['r', float(x)]
+
+
+def vec_(*xs):
+    return ['v', [r_(x) for x in xs]]
+
+
+def mat_(rows):
+    return ['m', [[r_(x) for x in row] for row in rows]]
+
+
+# what a hidden parameter of the underlying callable would swallow: ord / axis / axes / keepdims / out / offset / k
+SURPLUS = [r_(0), r_(1), r_(2), r_(-1), vec_(1, 0), vec_(0, 1), mat_([[1, 0], [0, 1]]), ['c', 0.0, 1.0], r_(0.5)]
+
+
+def natural_args(table, f, rng):
+    """argument lists of the documented count and of plausible types, several variants"""
+    if f == 'cross':
+        return [[vec_(1, 2, 3), vec_(0, 1, -1)], [make_array(rng, (3,)), make_array(rng, (3,))]]
+    if f in ('det', 'trace'):
+        return [[mat_([[1, 2], [3, 4]])], [make_array(rng, (3, 3))]]
+    if f in ('norm', 'trans', 'ctrans', 'adj') or (f == 'abs' and table == 'matrix'):
+        return [[vec_(3, 4)], [mat_([[1, 2], [3, 4]])], [r_(2)], [make_array(rng, (2, 3))] if f != 'abs' else [vec_(1, 2, 2)]]
+    if f in ('re', 'im', 'conj'):
+        return [[['c', 1.0, 2.0]], [vec_(3, 4)], [mat_([[1, 2], [3, 4]])]]
+    if f in ('min', 'max', 'arctan2', 'kronecker'):
+        return [[r_(1), r_(2)], [pal_real(rng), pal_real(rng)]]
+    return [[r_(0.5)], [pal_scalar(rng, 0.3)]]
+
+
+def wrong_count_cases(table, f, rng):
+    """n-1, n+1, n+2 arguments (documented n; min/max: fewer than 2), surplus arguments of every plausible kind"""
+    out = []
+    kind, n = O.documented_arity(f)
+    for base in natural_args(table, f, rng):
+        if n - 1 >= 1:
+            out.append({'table': table, 'fname': f, 'args': [list(a) for a in base[:n - 1]], 'stream': 'arity'})
+        if kind == 'at_least':
+            continue
+        for extra in (1, 2):
+            for k, s in enumerate(SURPLUS):
+                if extra == 2 and k % 3 != 0:
+                    continue
+                args = [list(a) for a in base] + [list(s)] + ([list(SURPLUS[(k + 4) % len(SURPLUS)])] if extra == 2 else [])
+                out.append({'table': table, 'fname': f, 'args': args, 'stream': 'arity'})
+    return out
+
+
 def arity_shape_cases(table_names, rng):
-    """every table entry x wrong argument counts x wrong argument shapes"""
+    """EVERY table entry (factorial included: its count rule needs no scipy) x wrong argument counts; every
+    non-excluded entry x wrong argument shapes"""
     out = []
     for table, names in table_names:
         for f in names:
+            out += wrong_count_cases(table, f, rng)
             if f in O.EXCLUDED:
                 continue
-            right = {'min': (2, 3, 4), 'max': (2, 3, 4), 'arctan2': (2,), 'kronecker': (2,), 'cross': (2,)}.get(f, (1,))
-            for n in (1, 2, 3, 4):
-                if n in right:
-                    continue
-                if f == 'cross':
-                    args = [make_array(rng, (3,)) for _ in range(n)]
-                elif f in ('det', 'trace'):
-                    args = [make_array(rng, (2, 2)) for _ in range(n)]
-                elif f in ('norm', 'trans', 'ctrans', 'adj') and rng.random() < 0.5:
-                    args = [make_array(rng, (2,)) for _ in range(n)]
-                else:
-                    args = [pal_scalar(rng, 0.2) for _ in range(n)]
-                out.append({'table': table, 'fname': f, 'args': args, 'stream': 'arity'})
+            right = {'min': (2,), 'max': (2,), 'arctan2': (2,), 'kronecker': (2,), 'cross': (2,)}.get(f, (1,))
             scalar_only = (f in O.SCALAR1 and not (f == 'abs' and table == 'matrix')) or f in ('min', 'max', 'arctan2', 'kronecker')
             if scalar_only:
                 n = right[0]
